@@ -302,7 +302,7 @@ func (g *G) genFunc(s *scope, d int, method bool, retF bool) (Func, fsig) {
 func (g *G) genBody(s *scope, d int, n int) []Expr {
 	out := []Expr{}
 	for i := 0; i < n; i++ {
-		switch k := g.r.Intn(15); {
+		switch k := g.r.Intn(16); {
 		case k < 3:
 			out = append(out, Print{g.genA(s, 2)})
 		case k < 5:
@@ -344,6 +344,23 @@ func (g *G) genBody(s *scope, d int, n int) []Expr {
 			g.ctr++
 			out = append(out, Assign{n, ObjLit{[]string{"v", "m"}, []Expr{g.genI(s, 1), m}}})
 			s.def(n, tO, sg)
+		case k == 14 && g.r.Intn(2) == 0:
+			// a closure factory whose inner literal has a keyword default depending on the factory's parameter:
+			// every closure keeps the default computed when *it* was created, whatever siblings were created later
+			mk, ca, cb := "mkc"+fmt.Sprint(g.ctr), "ca"+fmt.Sprint(g.ctr), "cb"+fmt.Sprint(g.ctr)
+			g.ctr++
+			inner := Func{Params: []string{"x"}, KwNames: []string{"k"}, KwDefs: []Expr{Bin{"+", Var{"n"}, Int{int64(g.r.Intn(3))}}},
+				Body: []Expr{ArrLit{[]Expr{Var{"x"}, Var{"k"}, Var{"n"}}}}}
+			out = append(out, Assign{mk, Func{Params: []string{"n"}, Body: []Expr{inner}}})
+			out = append(out, Assign{ca, Call{Var{mk}, []Arg{{E: g.genI(s, 1)}}}})
+			out = append(out, Assign{cb, Call{Var{mk}, []Arg{{E: g.genI(s, 1)}}}})
+			if g.r.Intn(2) == 0 {
+				out = append(out, Print{Call{Var{cb}, []Arg{{E: Int{0}}}}})
+			}
+			out = append(out, Print{Call{Var{ca}, []Arg{{E: Int{0}}}}})
+			out = append(out, Print{Call{Var{cb}, []Arg{{E: Int{1}}, {Kw: "k", E: Int{9}}}}})
+			out = append(out, Print{Call{Var{ca}, []Arg{{E: Int{2}}}}})
+			g.st.closureReturned++
 		case k == 13 && g.r.Intn(2) == 0:
 			// the same stored object expanded by two calls, the first of which expands a second object as well:
 			// what the first call received must not show up in the second
